@@ -118,24 +118,24 @@ theorem nodeAllows_strict (n : Node) : nodeAllows {} n = true := by
   rename_i sc pr repr
   cases repr <;> rfl
 
-structure NodeOK (ac : Bool) (nb : Allow) (S : Schema) (n : Node) : Prop extends Avro.NodeOK ac S n where
+structure NodeOK (nb : Allow) (S : Schema) (n : Node) : Prop extends Avro.NodeOK S n where
   allows : nodeAllows nb n = true
 
-def SchemaOK (ac : Bool) (nb : Allow) (S : Schema) : Prop :=
-  ∀ (k : Nat) (n : Node), S[k]? = some n → NodeOK ac nb S n
+def SchemaOK (nb : Allow) (S : Schema) : Prop :=
+  ∀ (k : Nat) (n : Node), S[k]? = some n → NodeOK nb S n
 
-theorem SchemaOK.of_checks {ac : Bool} {nb : Allow} {S : Schema} (h1 : S.keysInBounds = true)
+theorem SchemaOK.of_checks {nb : Allow} {S : Schema} (h1 : S.keysInBounds = true)
     (h2 : schemaNamesDistinct S = true) (h3 : schemaSmall S = true)
-    (h4 : schemaNoNestedUnion S = true) (h5 : schemaCharOK ac S = true)
-    (h6 : schemaAllows nb S = true) : SchemaOK ac nb S := by
+    (h4 : schemaNoNestedUnion S = true)
+    (h6 : schemaAllows nb S = true) : SchemaOK nb S := by
   intro k n hk
-  exact ⟨Avro.SchemaOK.of_checks h1 h2 h3 h4 h5 k n hk, Array.all_getElem? h6 hk⟩
+  exact ⟨Avro.SchemaOK.of_checks h1 h2 h3 h4 k n hk, Array.all_getElem? h6 hk⟩
 
-theorem NodeOK.of_check {ac : Bool} {nb : Allow} {S : Schema} {n : Node} (h : nodeOKb ac S n = true)
-    (h' : nodeAllows nb n = true) : NodeOK ac nb S n :=
+theorem NodeOK.of_check {nb : Allow} {S : Schema} {n : Node} (h : nodeOKb S n = true)
+    (h' : nodeAllows nb n = true) : NodeOK nb S n :=
   ⟨Avro.NodeOK.of_check h, h'⟩
 
-theorem NodeOK.string {ac : Bool} {nb : Allow} {S : Schema} : NodeOK ac nb S .string :=
+theorem NodeOK.string {nb : Allow} {S : Schema} : NodeOK nb S .string :=
   ⟨Avro.NodeOK.string, rfl⟩
 
 /-- The block writer, started with the advertised length `L` (`len.unwrap_or(0)`), writes ONE
@@ -222,15 +222,15 @@ def LeafRes (ext : DenExt) (S : Schema) (n : Node) (sv : SV) (m : SerM Unit) (s 
     ∃ v bytes, m s = (.ok (), { s with out := s.out ++ bytes }) ∧ Dec S n bytes v ∧
       denotesLeaf ext n sv v = true
 
-theorem SchemaOK.child {ac : Bool} {nb : Allow} {S : Schema} {n : Node} (hn : NodeOK ac nb S n) {k : Nat}
+theorem SchemaOK.child {nb : Allow} {S : Schema} {n : Node} (hn : NodeOK nb S n) {k : Nat}
     (hk : k ∈ n.children) : ∃ c, S[k]? = some c := by
   have := hn.children k hk
   exact ⟨S[k], by simp [this]⟩
 
-theorem viaUnion_leaf {ac : Bool} {nb : Allow} {ext : DenExt} {S : Schema} (hS : SchemaOK ac nb S) {node : Node}
-    (hn : NodeOK ac nb S node) (key : LookupKey) (f : Node → SerM Unit) (sv : SV) (s : SerState)
+theorem viaUnion_leaf {nb : Allow} {ext : DenExt} {S : Schema} (hS : SchemaOK nb S) {node : Node}
+    (hn : NodeOK nb S node) (key : LookupKey) (f : Node → SerM Unit) (sv : SV) (s : SerState)
     (h : s.budget = none)
-    (hf : ∀ n s, s.budget = none → n.isUnion = false → NodeOK ac nb S n → LeafRes ext S n sv (f n) s)
+    (hf : ∀ n s, s.budget = none → n.isUnion = false → NodeOK nb S n → LeafRes ext S n sv (f n) s)
     (hok : (viaUnion S node key f s).1 = .ok ()) :
     ∃ v bytes, viaUnion S node key f s = (.ok (), { s with out := s.out ++ bytes }) ∧
       Dec S node bytes v ∧ denotesAtLeaf ext S node sv v = true := by
@@ -282,8 +282,8 @@ theorem serDecimal_big_sound {ext : Ext} (S : Schema) (d : Int × Nat) (s : SerS
   exact ⟨_, he, Dec.bigDecimal hmin (by omega) hv hsc⟩
 
 section
-variable {ac : Bool} {nb : Allow} {ext : Ext} {S : Schema} (hS : SchemaOK ac nb S) {node : Node}
-  (hn : NodeOK ac nb S node) (s : SerState) (h : s.budget = none)
+variable {nb : Allow} {ext : Ext} {S : Schema} (hS : SchemaOK nb S) {node : Node}
+  (hn : NodeOK nb S node) (s : SerState) (h : s.budget = none)
 include hn h
 
 theorem serUnit_sound (sv : SV) (hsv : sv = .none ∨ sv = .unit)
@@ -323,8 +323,8 @@ theorem Dec.fixed {S : Schema} {nm : Name} {size : Nat} {b : Bytes} (hl : b.leng
 
 
 section
-variable {ac : Bool} {nb : Allow} {ext : Ext} {S : Schema} (hS : SchemaOK ac nb S) {node : Node}
-  (hn : NodeOK ac nb S node) (s : SerState) (h : s.budget = none)
+variable {nb : Allow} {ext : Ext} {S : Schema} (hS : SchemaOK nb S) {node : Node}
+  (hn : NodeOK nb S node) (s : SerState) (h : s.budget = none)
 include hS hn h
 
 theorem serBytes_sound (b : Bytes) (hb : b.length < 2 ^ 63)
@@ -373,8 +373,8 @@ theorem serBytes_sound (b : Bytes) (hb : b.length < 2 ^ 63)
 end
 
 section
-variable {ac : Bool} {nb : Allow} {ext : Ext} {S : Schema} (hS : SchemaOK ac nb S) {node : Node}
-  (hn : NodeOK ac nb S node) (s : SerState) (h : s.budget = none)
+variable {nb : Allow} {ext : Ext} {S : Schema} (hS : SchemaOK nb S) {node : Node}
+  (hn : NodeOK nb S node) (s : SerState) (h : s.budget = none)
 include hS hn h
 
 theorem serBool_sound (b : Bool) (hok : (serBool S node b s).1 = .ok ()) :
@@ -400,8 +400,8 @@ theorem serF32_sound (bits : BitVec 32) (hok : (serF32 S node bits s).1 = .ok ()
 end
 
 section
-variable {ac : Bool} {nb : Allow} {ext : Ext} {S : Schema} (hS : SchemaOK ac nb S) {node : Node}
-  (hn : NodeOK ac nb S node) (s : SerState) (h : s.budget = none)
+variable {nb : Allow} {ext : Ext} {S : Schema} (hS : SchemaOK nb S) {node : Node}
+  (hn : NodeOK nb S node) (s : SerState) (h : s.budget = none)
 include hS hn h
 
 theorem serInteger_sound (t : IntTy) (x : Int) (ht : t.inRange x = true)
@@ -453,16 +453,16 @@ theorem serInteger_sound (t : IntTy) (x : Int) (ht : t.inRange x = true)
 end
 
 section
-variable {ac : Bool} {nb : Allow} {ext : Ext} {S : Schema} (s : SerState) (h : s.budget = none)
+variable {nb : Allow} {ext : Ext} {S : Schema} (s : SerState) (h : s.budget = none)
 include h
 
 /-- `serStrAt` on string / bytes / enum nodes for any presentation that offers a text -/
-theorem serStrAt_text {n : Node} (hnok : NodeOK ac nb S n) (sv : SV) (str : String)
+theorem serStrAt_text {n : Node} (hnok : NodeOK nb S n) (sv : SV) (str : String)
     (ht : textOf sv = some str) (hlen : (utf8 str).length < 2 ^ 63)
-    (h3 : n = .string ∨ n = .bytes ∨ ∃ nm syms, n = .enum nm syms ∧ ∀ c, sv ≠ .char c) :
+    (h3 : n = .string ∨ n = .bytes ∨ ∃ nm syms, n = .enum nm syms) :
     LeafRes (denExtOf ext) S n sv (serStrAt ext n str) s := by
   intro hok
-  rcases h3 with rfl | rfl | ⟨nm, syms, rfl, hc⟩
+  rcases h3 with rfl | rfl | ⟨nm, syms, rfl⟩
   · exact ⟨.string str, _, writeLengthDelimited_none _ hlen s h,
       Dec.of_encode (by simp [encode, hlen]), denotesLeaf_string_text ht⟩
   · exact ⟨.bytes (utf8 str), _, writeLengthDelimited_none _ hlen s h,
@@ -476,39 +476,27 @@ theorem serStrAt_text {n : Node} (hnok : NodeOK ac nb S n) (sv : SV) (str : Stri
       have hi : InI64 (d : Int) := inI64_of_lt (by omega)
       have h1 : d < syms.length ∧ d < 2 ^ 63 := by omega
       exact ⟨.enum d, _, writeVarI64_spec _ hi s h, Dec.of_encode (by simp [encode, h1]),
-        denotesLeaf_enum_text ht hc (lookupLast_some hl)⟩
+        denotesLeaf_enum_text ht (lookupLast_some hl)⟩
 
 /-- `serialize_str` / `serialize_char` at a non-union node -/
-theorem serStrAt_leaf (hext : ExtOK ext) {n : Node} (hnok : NodeOK ac nb S n)
+theorem serStrAt_leaf (hext : ExtOK ext) {n : Node} (hnok : NodeOK nb S n)
     (sv : SV) (str : String)
-    (hsv : sv = .str str ∨ ∃ c, sv = .char c ∧ str = String.singleton c ∧ ac = true)
+    (hsv : sv = .str str ∨ ∃ c, sv = .char c ∧ str = String.singleton c)
     (hlen : (utf8 str).length < 2 ^ 63) :
     LeafRes (denExtOf ext) S n sv (serStrAt ext n str) s := by
   have ht : textOf sv = some str := by
-    rcases hsv with rfl | ⟨c, rfl, rfl, _⟩ <;> rfl
+    rcases hsv with rfl | ⟨c, rfl, rfl⟩ <;> rfl
   intro hok
   cases n
   case string => exact serStrAt_text s h hnok sv str ht hlen (Or.inl rfl) hok
   case bytes => exact serStrAt_text s h hnok sv str ht hlen (Or.inr (Or.inl rfl)) hok
   case enum nm syms =>
-    rcases hsv with rfl | ⟨c, rfl, rfl, hac⟩
-    · exact serStrAt_text s h hnok _ str ht hlen (Or.inr (Or.inr ⟨nm, syms, rfl, by simp⟩)) hok
-    · -- a `char` on an enum node: excluded by `nodeCharOK`
-      exfalso
-      simp only [serStrAt] at hok
-      cases hl : lookupLast syms (String.singleton c) with
-      | none => simp [hl, SerM.fail] at hok
-      | some d =>
-        have hmem : String.singleton c ∈ syms := List.mem_of_getElem? (lookupLast_some hl)
-        have hco := hnok.charok
-        simp only [nodeCharOK, hac, Bool.not_true, Bool.false_or, List.all_eq_true] at hco
-        have := hco _ hmem
-        simp at this
+    exact serStrAt_text s h hnok sv str ht hlen (Or.inr (Or.inr ⟨nm, syms, rfl⟩)) hok
   case uuid =>
     simp only [serStrAt] at hok ⊢
     refine ⟨.string str, _, writeLengthDelimited_none _ hlen s h,
       Dec.of_encode (by simp [encode, hlen]), ?_⟩
-    rcases hsv with rfl | ⟨c, rfl, rfl, _⟩ <;> simp [denotesLeaf]
+    rcases hsv with rfl | ⟨c, rfl, rfl⟩ <;> simp [denotesLeaf]
   case fixed nm size =>
     simp only [serStrAt] at hok ⊢
     by_cases hsz : size ≠ (strBytes str).length
@@ -517,7 +505,7 @@ theorem serStrAt_leaf (hext : ExtOK ext) {n : Node} (hnok : NodeOK ac nb S n)
       have hl : (utf8 str).length = size := by have : (strBytes str).length = size := by omega
                                                exact this
       refine ⟨.fixed (utf8 str), _, writeAll_none _ s h, Dec.fixed hl, ?_⟩
-      rcases hsv with rfl | ⟨c, rfl, rfl, _⟩ <;> simp [denotesLeaf, hl]
+      rcases hsv with rfl | ⟨c, rfl, rfl⟩ <;> simp [denotesLeaf, hl]
   case decimal scale prec repr =>
     simp only [serStrAt] at hok ⊢
     cases hp : ext.decParse str with
@@ -527,7 +515,7 @@ theorem serStrAt_leaf (hext : ExtOK ext) {n : Node} (hnok : NodeOK ac nb S n)
       obtain ⟨u, bytes, he, hd, hu⟩ := serDecimal_regular_sound hext S scale prec repr d s h hok
       refine ⟨.decimal u, bytes, he, hd, ?_⟩
       have hp' : (denExtOf ext).decParse str = some d := hp
-      rcases hsv with rfl | ⟨c, rfl, rfl, _⟩ <;>
+      rcases hsv with rfl | ⟨c, rfl, rfl⟩ <;>
         (simp only [denotesLeaf, hp']; exact decide_eq_true hu)
   case bigDecimal =>
     simp only [serStrAt] at hok ⊢
@@ -538,18 +526,18 @@ theorem serStrAt_leaf (hext : ExtOK ext) {n : Node} (hnok : NodeOK ac nb S n)
       obtain ⟨hr, hsc⟩ := hext.parse str d hp
       obtain ⟨bytes, he, hd⟩ := serDecimal_big_sound (ext := ext) S d s h hr hsc
       refine ⟨.bigDecimal d.1 d.2, bytes, he, hd, ?_⟩
-      rcases hsv with rfl | ⟨c, rfl, rfl, _⟩ <;> simp [denotesLeaf, denExtOf, hp]
+      rcases hsv with rfl | ⟨c, rfl, rfl⟩ <;> simp [denotesLeaf, denExtOf, hp]
   all_goals simp [serStrAt, SerM.fail] at hok
 
 end
 
 section
-variable {ac : Bool} {nb : Allow} {ext : Ext} {S : Schema} (hS : SchemaOK ac nb S) {node : Node}
-  (hn : NodeOK ac nb S node) (s : SerState) (h : s.budget = none)
+variable {nb : Allow} {ext : Ext} {S : Schema} (hS : SchemaOK nb S) {node : Node}
+  (hn : NodeOK nb S node) (s : SerState) (h : s.budget = none)
 include hS hn h
 
 theorem serStr_sound (hext : ExtOK ext) (sv : SV) (str : String)
-    (hsv : sv = .str str ∨ ∃ c, sv = .char c ∧ str = String.singleton c ∧ ac = true)
+    (hsv : sv = .str str ∨ ∃ c, sv = .char c ∧ str = String.singleton c)
     (hlen : (utf8 str).length < 2 ^ 63)
     (hok : (serStr ext S node str s).1 = .ok ()) :
     ∃ v bytes, serStr ext S node str s = (.ok (), { s with out := s.out ++ bytes }) ∧
@@ -571,7 +559,7 @@ theorem serUnitStruct_sound (name : String) (hlen : (utf8 name).length < 2 ^ 63)
   case string => exact serStrAt_text s h hnok _ name rfl hlen (Or.inl rfl) hok
   case bytes => exact serStrAt_text s h hnok _ name rfl hlen (Or.inr (Or.inl rfl)) hok
   case enum nm syms =>
-    exact serStrAt_text s h hnok _ name rfl hlen (Or.inr (Or.inr ⟨nm, syms, rfl, by simp⟩)) hok
+    exact serStrAt_text s h hnok _ name rfl hlen (Or.inr (Or.inr ⟨nm, syms, rfl⟩)) hok
   all_goals simp [SerM.fail] at hok
 
 theorem serUnitVariant_sound (name : String) (idx : Nat) (variant : String)
@@ -596,7 +584,7 @@ theorem serUnitVariant_sound (name : String) (idx : Nat) (variant : String)
     case string => exact serStrAt_text s h hnok _ variant rfl hlen (Or.inl rfl) hok
     case bytes => exact serStrAt_text s h hnok _ variant rfl hlen (Or.inr (Or.inl rfl)) hok
     case enum nm syms =>
-      exact serStrAt_text s h hnok _ variant rfl hlen (Or.inr (Or.inr ⟨nm, syms, rfl, by simp⟩)) hok
+      exact serStrAt_text s h hnok _ variant rfl hlen (Or.inr (Or.inr ⟨nm, syms, rfl⟩)) hok
     all_goals simp [SerM.fail] at hok
   by_cases hu : node.isUnion = false
   · have e : serUnitVariant ext S node variant =
@@ -684,12 +672,12 @@ theorem Res.of_leaf {S : Schema} {n : Node} {m : SerM Unit} {s : SerState} {Q : 
 
 
 section
-variable {ac : Bool} {nb : Allow} {S : Schema} (hS : SchemaOK ac nb S) {node : Node} (hn : NodeOK ac nb S node)
+variable {nb : Allow} {S : Schema} (hS : SchemaOK nb S) {node : Node} (hn : NodeOK nb S node)
 include hS hn
 
 theorem viaUnion_sound (key : LookupKey) (f : Node → SerM Unit) (Q : Node → Value → Prop)
     (s : SerState) (hs : Good s)
-    (hf : ∀ n s, Good s → n.isUnion = false → NodeOK ac nb S n → (f n s).1 = .ok () →
+    (hf : ∀ n s, Good s → n.isUnion = false → NodeOK nb S n → (f n s).1 = .ok () →
       Res S n (f n) s (Q n))
     (hok : (viaUnion S node key f s).1 = .ok ()) :
     Res S node (viaUnion S node key f) s (fun v =>
@@ -721,12 +709,12 @@ end
 
 
 section
-variable {ac : Bool} {nb : Allow} {S : Schema} (hS : SchemaOK ac nb S) {node : Node} (hn : NodeOK ac nb S node)
+variable {nb : Allow} {S : Schema} (hS : SchemaOK nb S) {node : Node} (hn : NodeOK nb S node)
 include hS hn
 
 theorem viaName_sound (name : String) (f : Node → SerM Unit) (Q : Node → Value → Prop)
     (s : SerState) (hs : Good s)
-    (hf : ∀ n s, Good s → NodeOK ac nb S n → (f n s).1 = .ok () → Res S n (f n) s (Q n))
+    (hf : ∀ n s, Good s → NodeOK nb S n → (f n s).1 = .ok () → Res S n (f n) s (Q n))
     (hok : (viaName S node name f s).1 = .ok ()) :
     Res S node (viaName S node name f) s (fun v =>
       ((node.isUnion = false ∨ ∃ vs, node = .union vs ∧ namedLookup name (branchNodes S vs) = none)
@@ -766,8 +754,8 @@ end
 
 
 /-- soundness of `ser` on one presentation, at every node and state -/
-def SerSound (ac : Bool) (nb : Allow) (ext : Ext) (a : Bool) (S : Schema) (sv : SV) : Prop :=
-  ∀ node s, NodeOK ac nb S node → Good s → (ser ext a S node sv s).1 = .ok () →
+def SerSound (nb : Allow) (ext : Ext) (a : Bool) (S : Schema) (sv : SV) : Prop :=
+  ∀ node s, NodeOK nb S node → Good s → (ser ext a S node sv s).1 = .ok () →
     Res S node (ser ext a S node sv) s (fun v => denotes (denExtOf ext) S node sv v = true)
 
 
@@ -775,12 +763,12 @@ def SerSound (ac : Bool) (nb : Allow) (ext : Ext) (a : Bool) (S : Schema) (sv : 
 /-! ### Arrays: one block -/
 
 section
-variable {ac : Bool} {nb : Allow} {ext : Ext} {a : Bool} {S : Schema}
+variable {nb : Allow} {ext : Ext} {a : Bool} {S : Schema}
 
 /-- inside a block that still has room for all remaining elements, nothing but the items is
     written -/
-theorem serElems_array_sound (item : Node) (hitem : NodeOK ac nb S item) (elems : List SV)
-    (hIH : ∀ e ∈ elems, SerSound ac nb ext a S e) :
+theorem serElems_array_sound (item : Node) (hitem : NodeOK nb S item) (elems : List SV)
+    (hIH : ∀ e ∈ elems, SerSound nb ext a S e) :
     ∀ c s k' s', Good s → elems.length ≤ c →
     serElems ext a S (.array item c) elems s = (.ok k', s') →
     ∃ vs bytes, k' = .array item (c - elems.length) ∧ s'.out = s.out ++ bytes ∧ Good s' ∧
@@ -821,8 +809,8 @@ theorem serElems_array_sound (item : Node) (hitem : NodeOK ac nb S item) (elems 
         · simp only [encodeItems, hdec', henc]
 
 /-- a single element after an empty header: the block writer opens a block of one -/
-theorem serElems_array_one (item : Node) (hitem : NodeOK ac nb S item) (e : SV)
-    (hIH : SerSound ac nb ext a S e) (s : SerState) (k' : SeqKind) (s' : SerState) (hs : Good s)
+theorem serElems_array_one (item : Node) (hitem : NodeOK nb S item) (e : SV)
+    (hIH : SerSound nb ext a S e) (s : SerState) (k' : SeqKind) (s' : SerState) (hs : Good s)
     (hrun : serElems ext a S (.array item 0) [e] s = (.ok k', s')) :
     ∃ vs bytes, k' = .array item 0 ∧ s'.out = s.out ++ (encodeLong 1 ++ bytes) ∧ Good s' ∧
       denotesList (denExtOf ext) S item [e] vs = true ∧
@@ -849,10 +837,10 @@ theorem serElems_array_one (item : Node) (hitem : NodeOK ac nb S item) (e : SV)
       · rw [hout2, ← hs1]; simp
       · simp [encodeItems, hdec']
 
-theorem seqCore_array_sound (k : Nat) (hnok : NodeOK ac nb S (.array k)) (hS : SchemaOK ac nb S)
+theorem seqCore_array_sound (k : Nat) (hnok : NodeOK nb S (.array k)) (hS : SchemaOK nb S)
     (len : Option Nat) (elems : List SV) (hlen : elems.length < 2 ^ 63)
     (hle : lenCovers (len.getD 0) elems.length = true)
-    (hIH : ∀ e ∈ elems, SerSound ac nb ext a S e) (s : SerState) (hs : Good s)
+    (hIH : ∀ e ∈ elems, SerSound nb ext a S e) (s : SerState) (hs : Good s)
     (hok : (seqCore ext a S (.array k) len elems s).1 = .ok ()) :
     Res S (.array k) (seqCore ext a S (.array k) len elems) s (fun v =>
       seqAtNode S (fun item items => denotesList (denExtOf ext) S item elems items) (u8List elems)
@@ -940,7 +928,7 @@ theorem seqCore_array_sound (k : Nat) (hnok : NodeOK ac nb S (.array k)) (hS : S
 end
 
 section
-variable {ac : Bool} {nb : Allow} {ext : Ext} {a : Bool} {S : Schema}
+variable {nb : Allow} {ext : Ext} {a : Bool} {S : Schema}
 
 theorem seqCore_bytes_sound (len : Option Nat) (elems : List SV) (hlen : elems.length < 2 ^ 63)
     (s : SerState) (hs : Good s)
@@ -1082,12 +1070,12 @@ theorem seqCore_duration_sound (len : Option Nat) (elems : List SV)
 end
 
 section
-variable {ac : Bool} {nb : Allow} {ext : Ext} {a : Bool} {S : Schema}
+variable {nb : Allow} {ext : Ext} {a : Bool} {S : Schema}
 
-theorem seqCore_sound (hS : SchemaOK ac nb S) (n : Node) (hnok : NodeOK ac nb S n)
+theorem seqCore_sound (hS : SchemaOK nb S) (n : Node) (hnok : NodeOK nb S n)
     (len : Option Nat) (elems : List SV) (hlen : elems.length < 2 ^ 63)
     (hle : nb.openSeq = true ∨ lenCovers (len.getD 0) elems.length = true)
-    (hIH : ∀ e ∈ elems, SerSound ac nb ext a S e) (s : SerState) (hs : Good s)
+    (hIH : ∀ e ∈ elems, SerSound nb ext a S e) (s : SerState) (hs : Good s)
     (hok : (seqCore ext a S n len elems s).1 = .ok ()) :
     Res S n (seqCore ext a S n len elems) s (fun v =>
       seqAtNode S (fun item items => denotesList (denExtOf ext) S item elems items) (u8List elems)
@@ -1104,10 +1092,10 @@ theorem seqCore_sound (hS : SchemaOK ac nb S) (n : Node) (hnok : NodeOK ac nb S 
   case duration => exact seqCore_duration_sound len elems s hs hok
   all_goals simp [seqCore, seqStartAt, bind, SerM.fail] at hok
 
-theorem seqBody_sound (hS : SchemaOK ac nb S) (node : Node) (hnok : NodeOK ac nb S node)
+theorem seqBody_sound (hS : SchemaOK nb S) (node : Node) (hnok : NodeOK nb S node)
     (len : Option Nat) (elems : List SV) (hlen : elems.length < 2 ^ 63)
     (hle : nb.openSeq = true ∨ lenCovers (len.getD 0) elems.length = true)
-    (hIH : ∀ e ∈ elems, SerSound ac nb ext a S e) (s : SerState) (hs : Good s)
+    (hIH : ∀ e ∈ elems, SerSound nb ext a S e) (s : SerState) (hs : Good s)
     (hok : (seqBody ext a S node len elems s).1 = .ok ()) :
     Res S node (seqBody ext a S node len elems) s (fun v =>
       (node.isUnion = false ∧
@@ -1127,10 +1115,10 @@ end
 /-! ### Maps: one block -/
 
 section
-variable {ac : Bool} {nb : Allow} {ext : Ext} {a : Bool} {S : Schema}
+variable {nb : Allow} {ext : Ext} {a : Bool} {S : Schema}
 
-theorem serFields_map_sound (item : Node) (hitem : NodeOK ac nb S item) (fields : List (String × SV))
-    (hIH : ∀ p ∈ fields, (utf8 p.1).length < 2 ^ 63 ∧ SerSound ac nb ext a S p.2) :
+theorem serFields_map_sound (item : Node) (hitem : NodeOK nb S item) (fields : List (String × SV))
+    (hIH : ∀ p ∈ fields, (utf8 p.1).length < 2 ^ 63 ∧ SerSound nb ext a S p.2) :
     ∀ c s k' s', Good s → fields.length ≤ c →
     serFields ext a S (.map item c) fields s = (.ok k', s') →
     ∃ ents bytes, k' = .map item (c - fields.length) ∧ s'.out = s.out ++ bytes ∧ Good s' ∧
@@ -1179,9 +1167,9 @@ theorem serFields_map_sound (item : Node) (hitem : NodeOK ac nb S item) (fields 
         · simp [denotesMapFields, hden, hdl]
         · simp only [encodeEntries, hdec', henc, hname, if_true]
 
-theorem serEntries_map_sound (item : Node) (hitem : NodeOK ac nb S item) (entries : List (SV × SV))
-    (hstr : NodeOK ac nb S .string)
-    (hIH : ∀ p ∈ entries, SerSound ac nb ext a S p.1 ∧ SerSound ac nb ext a S p.2) :
+theorem serEntries_map_sound (item : Node) (hitem : NodeOK nb S item) (entries : List (SV × SV))
+    (hstr : NodeOK nb S .string)
+    (hIH : ∀ p ∈ entries, SerSound nb ext a S p.1 ∧ SerSound nb ext a S p.2) :
     ∀ c s k' s', Good s → entries.length ≤ c →
     serEntries ext a S (.map item c) entries s = (.ok k', s') →
     ∃ ents bytes, k' = .map item (c - entries.length) ∧ s'.out = s.out ++ bytes ∧ Good s' ∧
@@ -1237,9 +1225,9 @@ theorem serEntries_map_sound (item : Node) (hitem : NodeOK ac nb S item) (entrie
             · simp only [encodeEntries, hdec', henc, hklen, if_true]
 
 /-- a single entry after an empty header: the block writer opens a block of one -/
-theorem serEntries_map_one (item : Node) (hitem : NodeOK ac nb S item) (key sv : SV)
-    (hstr : NodeOK ac nb S .string)
-    (hkey : SerSound ac nb ext a S key) (he : SerSound ac nb ext a S sv)
+theorem serEntries_map_one (item : Node) (hitem : NodeOK nb S item) (key sv : SV)
+    (hstr : NodeOK nb S .string)
+    (hkey : SerSound nb ext a S key) (he : SerSound nb ext a S sv)
     (s : SerState) (k' : StructKind) (s' : SerState) (hs : Good s)
     (hrun : serEntries ext a S (.map item 0) [(key, sv)] s = (.ok k', s')) :
     ∃ ents bytes, k' = .map item 0 ∧ s'.out = s.out ++ (encodeLong 1 ++ bytes) ∧ Good s' ∧
@@ -1283,9 +1271,9 @@ theorem serEntries_map_one (item : Node) (hitem : NodeOK ac nb S item) (key sv :
 end
 
 section
-variable {ac : Bool} {nb : Allow} {S : Schema}
+variable {nb : Allow} {S : Schema}
 
-theorem structCore_map_sound (k : Nat) (hnok : NodeOK ac nb S (.map k))
+theorem structCore_map_sound (k : Nat) (hnok : NodeOK nb S (.map k))
     (L : Nat) (durLen : Option Nat)
     (run : StructKind → SerState → Except (SerErr × StructKind) StructKind × SerState)
     (cnt : Nat) (hcnt : cnt < 2 ^ 63) (hle : lenCovers L cnt = true)
